@@ -748,6 +748,15 @@ func vtC17Gen(r *rand.Rand, i int) (string, []int64) {
 		label = "script:timeout"
 		ttl = int64(3 + r.Intn(10))
 		cut := r.Intn(5)
+		if r.Intn(4) == 0 {
+			// the Update recording ReservationRef fails, then the TTL passes (known finding sig 2)
+			step(func() { g.pod(uid, node, 2, ctrl) })
+			step(func() { g.op(0, 8) })
+			step(func() { g.op(4, ttl+int64(r.Intn(3))-1) })
+			step(g.reconcile)
+			step(g.reconcile)
+			break
+		}
 		steps := []func(){
 			func() { g.pod(uid, node, 2, ctrl) },
 			g.reconcile,
